@@ -13,6 +13,12 @@ def opts(rng):
         o['repeat'] = rng.choice([2, 3])
     if rng.random() < 0.1:
         o['stop'] = True
+    if rng.random() < 0.2:
+        o['color'] = True
+    if rng.random() < 0.15:
+        # post-mortem mode runs the tests through TestCase.debug() in a loop of its own
+        # (the debugger finds its stdin at end of file and lets the run end)
+        o['pm'] = True
     return o
 
 
